@@ -76,6 +76,11 @@ def run(tier, seed, rng):
                 m.bias.copy_(torch.randint(-3, 4, m.bias.shape, generator=gen).double())
         helper = Conv2dModuleHelper(m)
         try:
+            if sd % 2 == 0:
+                # the helper is stateless: an earlier call on a LARGER input of the same batch size (multi-resolution
+                # training) must not influence what it returns for x
+                xbig = torch.randint(-3, 4, (B, C, H + 2, W + 1), generator=gen).double()
+                helper._extract_patches(xbig.clone()); helper.get_a_factor(xbig.clone())
             patches = helper._extract_patches(x.clone())
             got = {}
             m.register_full_backward_hook(lambda mod, gi, go, got=got: got.__setitem__('go', go[0].detach().clone()))
